@@ -29,6 +29,7 @@ from katdal.lazy_indexer import DaskLazyIndexer, dask_getitem
 from katdal.sensordata import SensorCache, SimpleSensorGetter
 from katdal.spectral_window import SpectralWindow
 from katdal.chunkstore_s3 import _Pool
+from katdal.concatdata import ConcatenatedSensorCache
 
 RULE = ('schedules = lists of thread ids consumed at every traced source line of the katdal file(s) under test '
         '(3 threads; random schedules, plus all schedules with <= 2 pre-emptions in the thorough tier) on shared '
@@ -40,14 +41,27 @@ RULE = ('schedules = lists of thread ids consumed at every traced source line of
         'overlap inside the traced code; distinct by (site, executed line trace).  Loads: 4 v4 fixtures (odd sizes, applycal G/B/K, '
         'ragged chunks, power-scaled weights, lost chunks) x {synchronous, threads with 1,2,3,4,8,16 workers, model '
         'scheduler with policies random/greedy/fifo/lifo/reverse x early/late execution x 1..5 workers}; a case is '
-        '(fixture, index, scheduler, event list)')
+        '(fixture, index, scheduler, event list).  Extension: loads also of a 1x1 single-chunk set and a set with a separate flag '
+        'stream, with one extra index shape per fixture (boolean masks, scalars only, empty, negative/strided, ellipsis, index '
+        'list) separately / jointly / jointly into out=; sites sensor_dag* (SensorCache whose virtual sensors form a random DAG: '
+        'chains, diamonds, repeated inputs, raw only; 3 threads x 2 requests incl. an unknown name), concat_* '
+        '(ConcatenatedSensorCache: different / same sensors, sensor missing in one cache, virtual, selection), s3x_* '
+        '(get_chunk with truncated responses -> read retries with back-off, lost chunks, empty and missing buckets), v4_props '
+        '(sensor-backed properties of a v4 data set); model-only cases: random template DAGs x wants x schedules x '
+        'locked/unlocked (wire_205), property-map histories and schedules (206), server states x buckets x schedules (207), '
+        'interleavings of request programs and arbitrary event lists (208/209)')
 ASSUMPTIONS = ['CPython switches threads only between source lines of the traced files (line-level atomicity); '
                'C-level races inside numpy/dask/requests are not explored',
                'instrumented lock objects replace the threading.Lock/RLock attributes of the objects under test (a '
                'guard of any other type is left in place)',
                'threaded load = single-threaded load is proved for graphs of pure tasks under the event semantics of '
                'dask.local.get_async; purity/idempotence of the real tasks is observed (digests), not proved',
-               'the real thread pool runs are non-deterministic samples; the model scheduler runs are seeded']
+               'the real thread pool runs are non-deterministic samples; the model scheduler runs are seeded',
+               'sensor cache theorems: virtual-sensor templates form a well-founded graph (no sensor needs itself) and the '
+               'creating functions are pure functions of the values they fetch (observed on the real functions, not proved)',
+               'verified-bucket theorem: the answer of the server about a bucket does not change during the run',
+               'a stalled run of a site that talks to the loopback HTTP endpoint is repeated once under the same schedule '
+               'before it is reported']
 
 LOCKED_SAFE = 42
 
@@ -234,10 +248,59 @@ def symptom_of(problem):
     return problem.split(';')[0]
 
 
+def lock_order_problem(ctx, s):
+    """The instrumented locks of one run: which lock was asked for while which other one was held.  A cycle among these
+    'held -> asked for' edges is a deadlock waiting for its schedule (even if this run went through).  Without a cycle the
+    locks are ranked topologically and the threads' Acq/Rel programs are given to the model (wire_210): they must satisfy
+    the discipline `ordered` of Model/LockOrder.v, for which the theorems C20_lock_order_* hold."""
+    ops = s.lockops
+    locks = []
+    for _, _, l in ops:
+        if l not in locks:
+            locks.append(l)
+    if len(locks) < 2:
+        return None
+    held, edges, progs = {}, set(), {}
+    for t, k, l in ops:
+        if t is None:
+            continue
+        if k == 'a':
+            for h in held.get(t, []):
+                edges.add((h, l))
+            held.setdefault(t, []).append(l)
+        elif l in held.get(t, []):
+            held[t].remove(l)
+        progs.setdefault(t, []).append((k, l))
+    rank, remaining = {}, list(locks)
+    while remaining:
+        free = [l for l in remaining if not any((h, l) in edges for h in remaining if h != l)]
+        if not free:
+            return 'lock_order_cycle; %d locks ask for each other while held' % len(remaining)
+        for l in free:
+            rank[l] = len(rank)
+            remaining.remove(l)
+    ctx.extra['lock_order_edges_max'] = max(ctx.extra.get('lock_order_edges_max', 0), len(edges))
+    if edges and ctx.model_ok and not ctx.searching:
+        plist = [[[0 if k == 'a' else 1, rank[l]] for k, l in progs.get(t, [])] for t in range(max(progs) + 1)]
+        out = ctx.model([[210, [plist, []]]])[0]
+        if out != [-999] and not out[0]:
+            return 'model_lock_order_differs; the lock operations of the run do not fit the ranked discipline %r' % (plist,)
+        ctx.count('lock_order_programs_checked')
+    return None
+
+
 def run_one(ctx, site, make, files, schedule, replaying=False):
     s = Sched(files, schedule)
     funcs, check = make(s)
     results, trace = s.run(funcs)
+    if s.hung and site.startswith('s3'):
+        # the sites that talk to a local HTTP endpoint: a run that stalls is run once more under the same schedule -- a
+        # deadlock of the code under test is a property of the schedule and stalls again, a hiccup of the loopback
+        # connection on a loaded machine does not
+        ctx.count('s3_stalled_run_repeated')
+        s = Sched(files, schedule)
+        funcs, check = make(s)
+        results, trace = s.run(funcs)
     trace = [(t, tuple(w)) for t, w in trace]
     problem = None
     for tid in range(len(funcs)):
@@ -247,11 +310,16 @@ def run_one(ctx, site, make, files, schedule, replaying=False):
             break
     if problem is None:
         problem = check(results)
+    if problem is None:
+        problem = lock_order_problem(ctx, s)
     overlap = len({t for t, _ in trace}) > 1 and any(a[0] != b[0] for a, b in zip(trace, trace[1:]))
     if problem is not None:
-        ctx.disagree('site=%s;symptom=%s' % (site, symptom_of(problem)),
+        sym = symptom_of(problem)
+        ctx.disagree('site=%s;symptom=%s' % (site, sym),
                      dict(site=site, schedule=schedule, trace=trace[:60]), problem, None,
-                     'threads performing first accesses concurrently did not all obtain the single-thread value')
+                     'threads performing first accesses concurrently did not all obtain the single-thread value'
+                     if not sym.startswith('model_') else 'the real object and the extracted model of the site disagree',
+                     kind='tie' if sym.startswith('model_') else 'property')
     ctx.traces_validated += 1
     ctx.note_case((site, tuple(trace[:200])) if not replaying else (site, 'replay'), nontrivial=overlap,
                   sample=dict(site=site, schedule=schedule[:20], first_lines=trace[:6]))
@@ -797,7 +865,26 @@ FIXTURES = {
 }
 FIXTURES['cal'] = dict(T=5, F=6, cal=True, chunks={'correlator_data': (2, 4, 12), 'flags': (3, 3, 12), 'weights': (5, 2, 12)},
                        select=dict(dumps=[0, 5], channels=[0, 6]))
-INDICES = {'all': np.s_[:], 'fancy': np.s_[::2, [0, 3, 4], 1:], 'dump': np.s_[2]}
+# one chunk for everything / a single dump and channel and antenna / flags improved by a separate flag stream
+FIXTURES['tiny'] = dict(T=1, F=1, ants=['m000'], chunks={}, select=dict(dumps=[0, 1], channels=[0, 1]))
+FIXTURES['l1'] = dict(T=5, F=6, l1=True, chunks={'correlator_data': (2, 4, 4), 'flags': (3, 3, 4), 'weights': (5, 2, 2)},
+                      select=dict(dumps=[0, 5], channels=[0, 6]))
+INDICES = {'all': np.s_[:], 'fancy': np.s_[::2, [0, 3, 4], 1:], 'dump': np.s_[2],
+           # more load shapes (functions of the selected shape): boolean masks, scalars only, nothing at all, negative /
+           # strided, ellipsis, an index list on the time axis
+           'mask': lambda sh: np.s_[:, np.arange(sh[1]) % 2 == 0, sh[2] - 1],
+           'maskT': lambda sh: np.s_[np.arange(sh[0]) % 2 == (sh[0] + 1) % 2],
+           'single': lambda sh: np.s_[sh[0] - 1, sh[1] // 2, 0],
+           'empty': np.s_[0:0],
+           'neg': np.s_[-1, ::3],
+           'ell': np.s_[..., 0],
+           'list_t': lambda sh: np.s_[sorted({0, sh[0] // 2, sh[0] - 1})]}
+EXTRA_INDICES = ('mask', 'maskT', 'single', 'empty', 'neg', 'ell', 'list_t')
+
+
+def index_of(iname, d):
+    idx = INDICES[iname]
+    return idx(tuple(int(n) for n in d.shape)) if callable(idx) else idx
 
 
 def digest(a):
@@ -857,13 +944,23 @@ def _build_fixture(name, seed):
                    products=products)
         p.update(bandwidth=F * chan_w, center_freq=1284e6, telstate_hook=c13cal.cal_hook(cal),
                  archived_override=['sdp_l0', 'cal'], open_kwargs=dict(applycal=['l1.G', 'l1.B', 'l1.K']))
+    if p.pop('l1', False):
+        nb = 4 * len(p.get('ants', ('m000', 'm001'))) * (len(p.get('ants', ('m000', 'm001'))) + 1) // 2
+        rs = np.random.RandomState(seed)
+        p.update(l1_flags=rs.randint(0, 256, (p['T'], p['F'], nb)).astype(np.uint8), l1_chunks=(2, 3, nb))
     x = v4.build_v4(seed=seed, lose=lose, **p)
     x.d.select(dumps=slice(*sel['dumps']), channels=slice(*sel['channels']))
     return x
 
 
 def do_load(d, idx, joint):
-    """One load: the three arrays one by one, or jointly (twice the same array included: DaskLazyIndexer.get copies)."""
+    """One load: the three arrays one by one, jointly (twice the same array included: DaskLazyIndexer.get copies), or
+    (joint == 2) jointly into arrays the caller provides (`out=`), pre-filled with garbage."""
+    if joint == 2:
+        kept = [dask_getitem(a.dataset, idx) for a in (d.vis, d.weights, d.flags)]
+        out = [np.full(a.shape, 77, a.dtype) for a in kept]
+        res = DaskLazyIndexer.get([d.vis, d.weights, d.flags], idx, out=out)
+        return [np.asarray(a) for a in res] + [np.asarray(out[0])]
     if joint:
         out = DaskLazyIndexer.get([d.vis, d.weights, d.flags, d.vis], idx)
         return [np.asarray(a) for a in out]
@@ -882,9 +979,9 @@ _replayed = [0]
 def load_case(ctx, x, fixture, iname, joint, desc, ref, ref_reads, rl, seed):
     """Run one load of data set x.d under the scheduler `desc` and compare with the synchronous reference."""
     d = x.d
-    idx = INDICES[iname]
+    idx = index_of(iname, d)
     case = dict(kind='load', fixture=fixture, seed=seed, index=iname, joint=joint, sched=desc)
-    names = ('vis', 'weights', 'flags', 'vis_again')
+    names = ('vis', 'weights', 'flags', 'vis_again') if joint != 2 else ('vis', 'weights', 'flags', 'vis_out_param')
     ms = scheduler_of(desc)
     rec = Recorder()
     try:
@@ -966,8 +1063,11 @@ def store_writes_case(ctx, x, fixture, iname):
     pairwise distinct, so that the theorem applies; the model confirms order independence on a random permutation."""
     d = x.d
     try:
-        kept = guarded(lambda: [dask_getitem(a.dataset, INDICES[iname]) for a in (d.vis, d.weights, d.flags)], 30)
+        kept = guarded(lambda: [dask_getitem(a.dataset, index_of(iname, d)) for a in (d.vis, d.weights, d.flags)], 30)
     except Hang:
+        return
+    except (IndexError, ValueError):
+        ctx.count('store_writes_index_rejected')        # (the index does not fit this data set, e.g. dump 2 of a 1-dump set)
         return
     writes = []
     offset = 0
@@ -1028,22 +1128,38 @@ def threaded_vs_sync(ctx):
             continue
         rl = ReadLog(x.store)
         try:
-            combos = [('all', False), ('all', True), ('fancy', True)] if ctx.tier != 'thorough' else \
-                [(i, j) for i in INDICES for j in (False, True)]
+            if ctx.tier == 'thorough' and fixture in ('tiny', 'l1'):
+                combos = [(i, rng.choice((False, True, 2))) for i in INDICES]
+            elif ctx.tier == 'thorough':
+                combos = [(i, j) for i in ('all', 'fancy', 'dump') for j in (False, True)] + \
+                    [(i, j) for i in EXTRA_INDICES for j in (rng.choice((False, True)), 2)]
+            elif fixture in ('tiny', 'l1'):
+                combos = [('all', True), (rng.choice(EXTRA_INDICES), rng.choice((False, 2)))]
+            else:
+                # the three standing shapes + one more per fixture, drawn from the pool of extra shapes, into `out=` or not
+                combos = [('all', False), ('all', True), ('fancy', True), (rng.choice(EXTRA_INDICES), rng.choice((False, True, 2)))]
             for iname, joint in combos:
                 try:
                     with dask.config.set(scheduler='synchronous'):
-                        ref = guarded(lambda: do_load(x.d, INDICES[iname], joint))
+                        ref = guarded(lambda: do_load(x.d, index_of(iname, x.d), joint))
                 except Hang as e:
                     ctx.disagree('what=single_thread_load;symptom=hangs',
                                  dict(kind='load', fixture=fixture, seed=seed, index=iname, joint=joint,
                                       sched=dict(type='threads', workers=1)), str(e), None,
                                  'the single-threaded load of a v4 data set does not return')
                     return
+                except Exception as e:   # noqa
+                    # the single-threaded load itself rejects this shape: nothing to compare (not this property's business)
+                    ctx.count('load_reference_raises:%s:%s' % (iname, type(e).__name__))
+                    rl.take()
+                    continue
                 ref_reads = rl.take()
                 descs = schedulers_for(ctx, rng)
-                if ctx.tier != 'thorough' and not (iname == 'all' and joint):
+                if (ctx.tier != 'thorough' and not (iname == 'all' and joint is True and fixture not in ('tiny', 'l1'))) or \
+                        (ctx.tier == 'thorough' and (iname in EXTRA_INDICES or fixture in ('tiny', 'l1'))):
                     descs = [q for q in descs if q['type'] == 'model'][::2] + descs[1:4:2]
+                ctx.count('load_index=%s' % iname)
+                ctx.count('load_joint=%s' % {False: 'separate', True: 'joint', 2: 'joint_out'}[joint])
                 for desc in descs:
                     load_case(ctx, x, fixture, iname, joint, desc, ref, ref_reads, rl, seed)
                 store_writes_case(ctx, x, fixture, iname)
@@ -1052,6 +1168,682 @@ def threaded_vs_sync(ctx):
             rl.remove()
             v4.cleanup(x)
 
+
+
+# ================================================================================================ extension
+# Models of the remaining shared sites (coq/Model/SharedSites.v): sensor cache as a memoised DAG (wire_205), the wildcard
+# property map (206), the verified-bucket set (207), the request-level pool (208/209) -- cross-checked against the
+# theorems on random inputs and tied to the real objects below.
+
+ZMOD = 1000003
+
+
+def zmix(fid, args):
+    a = (fid * 31 + 7) % ZMOD
+    for v in args:
+        a = (a * 131 + v + 1) % ZMOD
+    return a
+
+
+def random_dag(rng, n):
+    """[deps, fid] per node in topological order + 'is created by a virtual-sensor function' flags; shapes: chains,
+    diamonds, the same input fetched twice, raw sensors only, virtual sensors without inputs (Timestamps/mjd)"""
+    g, virt = [], []
+    shape = rng.choice(('mixed', 'mixed', 'chain', 'flat', 'diamond'))
+    for k in range(n):
+        if k == 0 or shape == 'flat' or (shape == 'mixed' and rng.random() < 0.35):
+            g.append([[], rng.randrange(1000)])
+            virt.append(rng.random() < 0.15)
+        elif shape == 'chain':
+            g.append([[k - 1], rng.randrange(1000)])
+            virt.append(True)
+        elif shape == 'diamond' and k >= 3:
+            g.append([[k - 1, k - 2, k - 1], rng.randrange(1000)])
+            virt.append(True)
+        else:
+            g.append([[rng.randrange(k) for _ in range(rng.randint(1, min(3, k)))], rng.randrange(1000)])
+            virt.append(True)
+    return g, virt
+
+
+def dag_values(g):
+    out = []
+    for deps, fid in g:
+        out.append(zmix(fid, [out[d] for d in deps]))
+    return out
+
+
+def memo_eval(ctx, g, virt, wants, sched, locked, o):
+    states, cache, counts, seqv, hist = o
+    want_vals = dag_values(g)
+    bad = None
+    if [c[0] if c else None for c in seqv] != want_vals:
+        bad = 'seq_values'
+    for t, st in enumerate(states):
+        w = wants[t]
+        if st[0] == 4:
+            bad = 'crash'
+        elif st[0] == 2 and (w >= len(g) or st[1] != want_vals[w]):
+            bad = 'wrong_value'
+        elif st[0] == 3 and w < len(g):
+            bad = 'keyerror_for_known_name'
+    for k, c in enumerate(cache):
+        if c and c[0] != want_vals[k]:
+            bad = 'cache_inconsistent'
+    if locked and any(c > 1 for c in counts):
+        bad = 'created_twice_under_lock'
+    if bad:
+        ctx.disagree('what=model_memo;symptom=%s' % bad,
+                     dict(kind='model_memo', graph=g, virt=[int(v) for v in virt], wants=wants, schedule=sched, locked=locked),
+                     None, o, 'extracted sensor-cache machine contradicts the theorems', kind='tie')
+    return int(not locked and any(c > 1 for c in counts))
+
+
+def memo_cross_check(ctx):
+    """Extracted stack machine on random template DAGs, wants (incl. names nothing creates) and schedules, with and
+    without the lock: values = single-thread values, KeyError exactly for unknown names, locked -> created once."""
+    if not ctx.model_ok or ctx.searching:
+        return
+    rng = ctx.rng
+    cases = []
+    for _ in range(ctx.scale(150, 2500)):
+        n = rng.randint(1, 8)
+        g, virt = random_dag(rng, n)
+        nt = rng.randint(1, 4)
+        wants = [rng.randrange(n + 1) for _ in range(nt)]
+        sched = [rng.randrange(nt) for _ in range(rng.choice((0, 3, 20, 60, 150, 300)))]
+        for locked in (1, 0):
+            cases.append((g, virt, wants, sched, locked))
+    outs = ctx.model([[205, [g, [int(v) for v in virt], wants, sched, locked]] for g, virt, wants, sched, locked in cases])
+    twice = 0
+    for (g, virt, wants, sched, locked), o in zip(cases, outs):
+        if o == [-999]:
+            continue
+        twice += memo_eval(ctx, g, virt, wants, sched, locked, o)
+        ctx.note_case(('model_memo', str(g), tuple(wants), tuple(sched), locked), nontrivial=len(sched) > 3)
+    ctx.extra['model_memo_unlocked_created_twice'] = twice
+    ctx.count('model_memo', len(cases))
+
+
+def props_cross_check(ctx):
+    """(a) the REAL SensorCache._get_props driven by one thread for a history of sensor names on a map with wildcard
+    entries vs the extracted machine run serially: same key order of the map afterwards, every pattern entry that
+    matches is merged; (b) extracted machine under random schedules: locked -> no crash and all pattern keys seen,
+    unlocked -> crashes exist (counted)."""
+    if not ctx.model_ok or ctx.searching:
+        return
+    rng = ctx.rng
+    crashes = 0
+    for _ in range(ctx.scale(60, 800)):
+        # keys: ints; patterns 100+j stand for '*sfx_j' (match names whose number % 3 == j), plain keys = sensor names
+        nkeys = rng.randint(0, 5)
+        keys = []
+        for _ in range(nkeys):
+            k = rng.choice([100, 101, 102, rng.randrange(20)])
+            if k not in keys:
+                keys.append(k)
+        nt = rng.randint(1, 4)
+        names = [rng.randrange(20) for _ in range(nt)]
+
+        def real_key(k):
+            return '*_s%d' % (k - 100) if k >= 100 else 'n%d_s%d' % (k, k % 3)
+        prop_map = {real_key(k): ({'p%d' % k: k} if k >= 100 else {}) for k in keys}
+        order = list(range(nt))
+        rng.shuffle(order)
+        merged = {}
+        for t in order:
+            merged[t] = dict(SensorCache._get_props(real_key(names[t]), prop_map))
+        serial = [t for t in order for _ in range(40)]
+        sched = [rng.randrange(nt) for _ in range(rng.choice((5, 30, 80)))]
+        out = ctx.model([[206, [keys, names, serial, 1]], [206, [keys, names, sched, 1]], [206, [keys, names, sched, 0]]])
+        if [-999] in out:
+            continue
+        (st_serial, keys_serial), (st_l, keys_l), (st_u, keys_u) = out
+        case = dict(kind='model_props', keys=keys, names=names, order=order, schedule=sched)
+        if [real_key(k) for k in keys_serial] != list(prop_map):
+            ctx.disagree('what=model_props;symptom=key_order', case, list(prop_map), keys_serial,
+                         'keys of the property map after a history of _get_props calls: real dict vs model', kind='tie')
+        for t in order:
+            st = st_serial[t]
+            pats = [k for k in (st[1] if st[0] == 2 else []) if k >= 100 and (names[t] % 3) == k - 100]
+            want = {}
+            for k in pats:
+                want['p%d' % k] = k
+            if st[0] != 2 or want != merged[t]:
+                ctx.disagree('what=model_props;symptom=merged_entries', case, merged[t], st,
+                             'properties merged by the real _get_props vs the pattern entries the model iterates over', kind='tie')
+        if any(st[0] == 4 for st in st_l) or any(st[0] == 2 and [k for k in st[1] if k >= 100] != [k for k in keys if k >= 100]
+                                                  for st in st_l):
+            ctx.disagree('what=model_props;symptom=locked_unsafe', case, None, st_l,
+                         'extracted property-map machine contradicts the theorem', kind='tie')
+        crashes += any(st[0] == 4 for st in st_u)
+        ctx.traces_validated += 1
+        ctx.note_case(('model_props', tuple(keys), tuple(names), tuple(sched)), nontrivial=nt > 1)
+        ctx.count('model_props')
+    ctx.extra['model_props_unlocked_crashes'] = crashes
+
+
+def verify_cross_check(ctx):
+    """extracted verified-bucket machine (never locked) on random server states / buckets / schedules: every finished
+    thread has the single-thread outcome, only good buckets are remembered"""
+    if not ctx.model_ok or ctx.searching:
+        return
+    rng = ctx.rng
+    cases = []
+    for _ in range(ctx.scale(150, 2500)):
+        nb = rng.randint(1, 4)
+        sts = [rng.choice((0, 1, 2, 2, 5)) for _ in range(nb)]
+        nt = rng.randint(1, 5)
+        bs = [rng.randrange(nb) for _ in range(nt)]
+        sched = [rng.randrange(nt) for _ in range(rng.choice((0, 4, 12, 40, 90)))]
+        cases.append((sts, bs, sched))
+    outs = ctx.model([[207, list(c)] for c in cases])
+    dup = 0
+    for (sts, bs, sched), o in zip(cases, outs):
+        if o == [-999]:
+            continue
+        states, remembered, spec, code_ok = o
+        bad = None
+        if not code_ok:
+            bad = 'code_not_ok'
+        for t, st in enumerate(states):
+            if st[0] == 4 or (st[0] == 2 and st[1] != spec[t]) or spec[t] != (2 if sts[bs[t]] in (0, 1) else 1):
+                bad = 'outcome'
+        if any(sts[b] in (0, 1) for b in remembered):
+            bad = 'bad_bucket_remembered'
+        dup += len(remembered) != len(set(remembered))
+        if bad:
+            ctx.disagree('what=model_verify;symptom=%s' % bad, dict(kind='model_verify', statuses=sts, buckets=bs, schedule=sched),
+                         None, o, 'extracted verified-bucket machine contradicts the theorem', kind='tie')
+        ctx.note_case(('model_verify', tuple(sts), tuple(bs), tuple(sched)), nontrivial=len(sched) > 4)
+    ctx.extra['model_verify_listed_twice'] = dup
+    ctx.count('model_verify', len(cases))
+
+
+def request_cross_check(ctx):
+    """request-level pool: random interleavings of the event lists the model builds for random requests (wire_209,
+    flags as translated) replayed in the model pool (wire_208): nothing raises, no clash, nothing used unheld, sessions
+    accounted for; plus arbitrary (non-conforming) event soups."""
+    if not ctx.model_ok or ctx.searching:
+        return
+    rng = ctx.rng
+    for _ in range(ctx.scale(80, 1500)):
+        nt = rng.randint(1, 4)
+        reqs = []
+        for t in range(nt):
+            for _ in range(rng.randint(1, 3)):
+                outs = [0] * rng.choice((0, 0, 1, 2)) + [rng.choice((1, 1, 2))]
+                if rng.random() < 0.1:
+                    outs = [0] * rng.randint(0, 3)       # the retries run out
+                reqs.append((t, outs))
+        evs = ctx.model([[209, [t, outs]] for t, outs in reqs])
+        if [-999] in evs:
+            continue
+        per = {}
+        for (t, _), e in zip(reqs, evs):
+            per.setdefault(t, []).extend(e)
+        merged = []
+        pos = {t: 0 for t in per}
+        while any(pos[t] < len(per[t]) for t in per):
+            t = rng.choice([t for t in per if pos[t] < len(per[t])])
+            merged.append(per[t][pos[t]])
+            pos[t] += 1
+        soup = [[rng.randrange(5), rng.randrange(nt)] for _ in range(rng.randint(0, 25))]
+        (free, held, lost, clash, unheld, raised, made), (f2, h2, l2, c2, u2, r2, m2) = ctx.model([[208, merged], [208, soup]])
+        fails = sum(1 for _, outs in reqs if not outs or outs[-1] != 1)
+        case = dict(kind='model_request', requests=[[t, o] for t, o in reqs], events=merged)
+        if clash or unheld or raised or held or made != len(free) + lost or lost != fails or len(set(free)) != len(free):
+            ctx.disagree('what=model_request;symptom=conforming', case, None, [free, held, lost, clash, unheld, raised, made],
+                         'model pool under an interleaving of request programs contradicts the theorem', kind='tie')
+        if c2 or r2 or m2 != len(f2) + len(h2) + l2 or len(set(f2 + h2)) != len(f2 + h2):
+            ctx.disagree('what=model_request;symptom=soup', dict(kind='model_request', events=soup), None,
+                         [f2, h2, l2, c2, u2, r2, m2], 'model pool under an arbitrary event list contradicts the theorem', kind='tie')
+        ctx.note_case(('model_request', str(reqs), str(merged)), nontrivial=nt > 1)
+        ctx.count('model_request')
+
+
+# ------------------------------------------------------------------------------------------------ real sites (extension)
+
+class LoggingILock(ILock):
+    """an instrumented re-entrant lock that records which thread took it from the outside (depth 0 -> 1), in order"""
+
+    def __init__(self, sched, log):
+        ILock.__init__(self, sched, reentrant=True)
+        self.log = log
+
+    def acquire(self, blocking=True, timeout=-1):
+        r = ILock.acquire(self, blocking, timeout)
+        if self.count == 1:
+            self.log.append(self.s.current)
+        return r
+
+
+class CountingGetter(SimpleSensorGetter):
+    def __init__(self, name, ts, val, log):
+        SimpleSensorGetter.__init__(self, name, ts, val)
+        self._log = log
+
+    def get(self):
+        self._log.append(self.name)
+        return SimpleSensorGetter.get(self)
+
+
+def site_sensor_dag(ctx, dag_seed):
+    """A SensorCache whose virtual sensors form a random DAG (each creating function follows the katdal skeleton:
+    fetch the inputs with cache.get, compute, cache[name] = ..., return it), three threads asking twice each for random
+    names (one name nothing creates).  Every result must be the single-thread value; the run is replayed serially, in
+    the order in which the threads took the cache lock, in the extracted machine (wire_205): same creator-independent
+    facts -- which names end up cached, how often each was created."""
+    rng = random.Random(dag_seed)
+    n = rng.randint(4, 8)
+    g, virt = random_dag(rng, n)
+    for k in range(n):
+        if g[k][0]:
+            virt[k] = True
+    names = ['n%d' % k for k in range(n)] + ['n%d' % n]
+    vals = dag_values(g)
+    wants = [[rng.randrange(n + 1) for _ in range(2)] for _ in range(3)]
+    ts = np.arange(8.0)
+
+    def make(s):
+        created, order = [], []
+        raw, virtual = {}, {}
+
+        def mk_virtual(k):
+            deps, fid = g[k]
+
+            def create(cache, name):
+                got = [cache.get(names[d]) for d in deps]
+                out = np.full(8, float(zmix(fid, [int(v[0]) for v in got])))
+                created.append(name)
+                cache[name] = out
+                return out
+            return create
+        for k in range(n):
+            if virt[k]:
+                virtual[names[k]] = mk_virtual(k)
+            else:
+                v = float(zmix(g[k][1], []))
+                raw[names[k]] = CountingGetter(names[k], np.array([0.0, 7.0]), np.array([v, v]), created)
+        cache = SensorCache(raw, ts, 1.0, virtual=virtual)
+        cache._lock = LoggingILock(s, order)
+
+        def reader(t):
+            def f():
+                out = []
+                for w in wants[t]:
+                    try:
+                        out.append(float(cache.get(names[w])[3]))
+                    except KeyError:
+                        out.append('KeyError')
+                return out
+            return f
+
+        def check(results):
+            for t in range(3):
+                exp = [float(vals[w]) if w < n else 'KeyError' for w in wants[t]]
+                if results[t][1] != exp:
+                    return 'wrong_value; thread %d got %r instead of %r' % (t, results[t][1], exp)
+            counts = [created.count(names[k]) for k in range(n)]
+            if max(counts) > 1:
+                return 'created_%d_times; %s' % (max(counts), names[counts.index(max(counts))])
+            for k in range(n):
+                e = cache._raw.get(names[k])
+                if isinstance(e, np.ndarray) and not np.array_equal(e, np.full(8, float(vals[k]))):
+                    return 'cache_holds_wrong_value; %s' % names[k]
+            if ctx.model_ok and not ctx.searching and len(order) == 6:
+                seen = {0: 0, 1: 0, 2: 0}
+                mwants, serial = [], []
+                for t in order:
+                    mwants.append(wants[t][seen[t]])
+                    seen[t] += 1
+                    serial += [len(mwants) - 1] * 120
+                o = ctx.model([[205, [g, [int(v) for v in virt], mwants, serial, 1]]])[0]
+                if o != [-999]:
+                    states, mcache, mcounts, seqv, hist = o
+                    cached = [int(isinstance(cache._raw.get(names[k]), np.ndarray)) for k in range(n)]
+                    if mcounts != counts or [int(bool(c)) for c in mcache] != cached or any(st[0] not in (2, 3) for st in states):
+                        return 'model_differs; created %r cached %r, model created %r cached %r' % (
+                            counts, cached, mcounts, [int(bool(c)) for c in mcache])
+            return None
+        return [reader(0), reader(1), reader(2)], check
+    return make
+
+
+_concat_ref = {}
+
+
+def site_concat(kind):
+    """ConcatenatedSensorCache over two SensorCaches (wildcard property map with time offsets): first extraction of
+    different / the same sensors, a sensor that exists in one of the caches only (dummy data is put back), a virtual
+    sensor, selection through cc[name]."""
+    ts = np.arange(8.0)
+
+    def build(s=None):
+        made = []
+
+        def virt(cache, name, **kw):
+            base = cache.get('a')
+            out = base * 2
+            made.append(name)
+            cache[name] = out
+            return out
+
+        def mk(off, with_c):
+            raw = {'a': SimpleSensorGetter('a', np.array([0.0, 7.0]) + off, np.array([10.0, 17.0]) + off),
+                   'b': SimpleSensorGetter('b', np.array([0.0, 7.0]) + off, np.array([0.0, 70.0])),
+                   'x/pos': SimpleSensorGetter('x/pos', np.array([0.5, 7.5]) + off, np.array([5.0, 12.0])),
+                   'y/pos': SimpleSensorGetter('y/pos', np.array([0.5, 7.5]) + off, np.array([50.0, 120.0]))}
+            if with_c:
+                raw['c'] = SimpleSensorGetter('c', np.array([0.0, 7.0]) + off, np.array([1.0, 8.0]))
+            keep = np.array([1, 0, 1, 1, 0, 0, 1, 1], bool)
+            return SensorCache(raw, ts + off, 1.0, keep=keep, props={'*/pos': {'time_offset': -0.5}, '*': {}},
+                               virtual={'double/a': virt})
+        c1, c2 = mk(0.0, True), mk(8.0, False)
+        cc = ConcatenatedSensorCache([c1, c2], keep=np.array([1, 0, 1, 1, 0, 0, 1, 1] * 2, bool))
+        if s is not None:
+            for c in (c1, c2, cc):
+                if hasattr(c, '_lock'):
+                    c._lock = ilock_like(s, c._lock)
+        if kind == 'diff':
+            fs = [lambda: cc.get('x/pos'), lambda: cc.get('y/pos'), lambda: cc.get('b')]
+        elif kind == 'same':
+            fs = [lambda: cc.get('a'), lambda: cc.get('a'), lambda: cc.get('b')]
+        elif kind == 'missing':
+            fs = [lambda: cc.get('c'), lambda: cc.get('c'), lambda: cc.get('a')]
+        elif kind == 'virtual':
+            fs = [lambda: cc.get('double/a'), lambda: cc.get('a'), lambda: cc.get('double/a')]
+        else:
+            fs = [lambda: cc['a'], lambda: cc.get('b', select=True), lambda: ('a' in cc, cc['x/pos'])[1]]
+        return fs, cc, (c1, c2), made
+
+    def make(s):
+        if kind not in _concat_ref:
+            fs, _, _, _ = build()
+            _concat_ref[kind] = [np.asarray(f()) for f in fs]
+        exp = _concat_ref[kind]
+        fs, cc, subs, made = build(s)
+
+        def check(results):
+            for tid, e in enumerate(exp):
+                got = np.asarray(results[tid][1])
+                if got.shape != e.shape or not np.array_equal(got, e, equal_nan=True):
+                    return 'wrong_value; thread %d' % tid
+            if len(made) > 2:
+                return 'virtual_created_%d_times' % len(made)
+            return None
+        return fs, check
+    return make
+
+
+_v4p = {}
+V4P_FILES = ['katdal/sensordata.py', 'katdal/dataset.py', 'katdal/visdatav4.py', 'katdal/categorical.py']
+
+
+def v4p_env(seed):
+    if 'x' not in _v4p:
+        rs = np.random.RandomState(seed)
+        t0 = 1600000000.0 + 123.0
+        extra = []
+        for a in ('m000', 'm001'):
+            for sfx, lo in (('azim', 10.0), ('elev', 30.0)):
+                extra.append(('%s_pos_actual_scan_%s' % (a, sfx),
+                              [(t0 - 20.0 + 2.0 * i, lo + 0.3 * i + float(rs.uniform(0, 0.1))) for i in range(20)]))
+        for nm, lo in (('anc_air_temperature', 20.0), ('anc_air_pressure', 900.0), ('anc_air_relative_humidity', 40.0),
+                       ('anc_mean_wind_speed', 3.0), ('anc_wind_direction', 100.0)):
+            extra.append((nm, [(t0 - 20.0 + 5.0 * i, lo + float(rs.uniform(0, 1))) for i in range(10)]))
+        _v4p['x'] = guarded(lambda: v4.build_v4(T=6, F=4, seed=seed, extra_sensors=extra), 150)
+        d = _v4p['x'].d
+        _v4p['exp'] = guarded(lambda: [f() for f in v4p_readers(d)])
+    return _v4p['x'], _v4p['exp']
+
+
+def v4p_readers(d):
+    def pack(*arrs):
+        return [np.asarray(a).tolist() for a in arrs]
+    return [lambda: pack(d.az, d.ra, d.temperature, d.timestamps),
+            lambda: pack(d.sensor['m000_pos_actual_scan_azim'], d.dec, d.parangle, d.pressure, d.wind_speed, d.mjd,
+                         d.sensor['m001_pos_actual_scan_elev']),
+            lambda: pack(d.el, d.lst, d.target_x, d.humidity, d.az)]
+
+
+def site_v4_props(seed):
+    """The sensor-backed properties of a freshly opened v4 data set read from three threads: az/el (virtual over raw
+    pointing sensors), ra/dec (one virtual function storing two names), parangle, target_x (virtual over virtual),
+    mjd/lst, the weather sensors through get_with_fallback, timestamps."""
+    def make(s):
+        x, exp = v4p_env(seed)
+        d = v4.reopen(x)
+        d.sensor._lock = ilock_like(s, d.sensor._lock)
+
+        def check(results):
+            for tid in range(3):
+                if results[tid][1] != exp[tid]:
+                    got = results[tid][1]
+                    k = [i for i, (a, b) in enumerate(zip(got, exp[tid])) if a != b] if isinstance(got, list) else '?'
+                    return 'wrong_value; thread %d item %s' % (tid, k)
+            return None
+        return v4p_readers(d), check
+    return make
+
+
+def v4p_cleanup():
+    if 'x' in _v4p:
+        v4.cleanup(_v4p.pop('x'))
+        _v4p.clear()
+
+
+_s3x = {}
+
+
+def s3x_env():
+    if 's' not in _s3x:
+        import logging
+        from fixtures.s3mini import MiniS3
+        from katdal.chunkstore import npy_header_and_body
+        logging.getLogger('urllib3').setLevel(logging.CRITICAL)
+        objects, chunks = {}, {}
+        for k in range(3):
+            a = (np.arange(12, dtype=np.int32).reshape(3, 4) + 100 * k)
+            hdr, body = npy_header_and_body(a)
+            objects['/bkt/arr/%05d_00000.npy' % (3 * k)] = hdr + body.tobytes()
+            chunks[k] = a
+        # chunk 3 of bkt is lost; buckets 'void' (listing without keys) and 'gone' (404) have no objects at all
+        _s3x['s'] = MiniS3(objects, buckets={'void': 'empty', 'gone': 'missing'},
+                           trunc={'/bkt/arr/00000_00000.npy': 1, '/bkt/arr/00003_00000.npy': 2})
+        _s3x['chunks'] = chunks
+    return _s3x['s'], _s3x['chunks']
+
+
+S3X_PLANS = {
+    # per thread: (bucket, chunk number); expected: the chunk, or the exception a single thread gets
+    'retry': [[('bkt', 0), ('bkt', 1)], [('bkt', 1), ('bkt', 0)], [('bkt', 2), ('bkt', 1)]],
+    'lost': [[('bkt', 3), ('bkt', 0)], [('bkt', 3), ('bkt', 3)], [('bkt', 2), ('bkt', 3)]],
+    'void': [[('void', 0), ('bkt', 2)], [('void', 1), ('void', 0)], [('bkt', 3), ('void', 2)]],
+    'gone': [[('gone', 0), ('gone', 0)], [('gone', 1), ('bkt', 3)], [('bkt', 1), ('gone', 2)]],
+}
+S3X_STATUS = {'bkt': 2, 'void': 1, 'gone': 0}
+
+
+def site_s3x(ctx, plan_name):
+    """S3ChunkStore.get_chunk from three threads against a local endpoint with truncated responses (read retries with a
+    back-off sleep while the session stays borrowed), lost chunks (404 -> the bucket is checked through the UNLOCKED
+    _verified_buckets set), an empty and a missing bucket.  Every thread must get what a single thread gets (the chunk,
+    ChunkNotFound or StoreUnavailable); no session may be in two hands; the events (borrow / send / sleep / give back /
+    lose) of every request must be the request program of the model (wire_209) and the whole history, replayed in the
+    model pool (wire_208), must account for every session; the verified set must hold good buckets only and the
+    outcomes must be those of the extracted machine (wire_207)."""
+    from katdal.chunkstore_s3 import S3ChunkStore
+    from katdal.chunkstore import ChunkNotFound, StoreUnavailable
+    from urllib3.util.retry import Retry
+    plan = S3X_PLANS[plan_name]
+
+    def make(s):
+        srv, chunks = s3x_env()
+        srv.reset_faults()
+        store = S3ChunkStore(srv.url, timeout=(2, 5), retries=Retry(connect=0, read=3, status=0, backoff_factor=0.0005))
+        pool = store._session_pool
+        pool._lock = ilock_like(s, pool._lock)
+        events = []          # (kind, thread): 0 get 1 use 2 sleep 3 put 4 drop
+        inuse, clashes, made, borrowed = {}, [], [], {}
+        inner_factory, inner_get, inner_put = pool._factory, pool.get, pool.put
+
+        class LoggedList(list):
+            # the free list: its pop / append happen inside the pool lock, so logging them here gives the TRUE order of
+            # the pool operations (a wrapper around get / put could be pre-empted between the operation and the log entry)
+            def pop(self, *a):
+                events.append((0, s.current))
+                return list.pop(self, *a)
+
+            def append(self, x):
+                events.append((3, s.current))
+                list.append(self, x)
+
+            def insert(self, i, x):
+                events.append((3, s.current))
+                list.insert(self, i, x)
+        pool._pool = LoggedList(pool._pool)
+
+        def factory():
+            session = inner_factory()
+            events.append((0, s.current))
+            made.append(session)
+            sid = len(made)
+            orig = session.request
+
+            def request(*a, **k):
+                me = s.current
+                events.append((1, me))
+                if inuse.get(sid) is not None and inuse[sid] != me:
+                    clashes.append((sid, inuse[sid], me))
+                if borrowed.get(me) is not session:
+                    clashes.append((sid, 'not_the_borrowed_session', me))
+                inuse[sid] = me
+                try:
+                    resp = orig(*a, **k)
+                except BaseException:
+                    inuse[sid] = None
+                    raise
+                close = resp.close
+
+                def closing():
+                    if inuse.get(sid) == me:
+                        inuse[sid] = None
+                    close()
+                resp.close = closing
+                return resp
+            session.request = request
+            return session
+
+        def get():
+            item = inner_get()
+            borrowed[s.current] = item
+            return item
+
+        def put(item):
+            if borrowed.get(s.current) is item:
+                borrowed[s.current] = None
+            inner_put(item)
+        pool._factory, pool.get, pool.put = factory, get, put
+        inner_request = store.request
+
+        def request(*a, **k):
+            try:
+                return inner_request(*a, **k)
+            finally:
+                if borrowed.get(s.current) is not None:      # the request left its `with` block by an exception
+                    events.append((4, s.current))
+                    borrowed[s.current] = None
+        store.request = request
+        real_sleep = Retry.sleep
+
+        def sleep(self, response=None):
+            events.append((2, s.current))
+            return real_sleep(self, response)
+
+        def getter(t):
+            def f():
+                out = []
+                Retry.sleep = sleep
+                for b, k in plan[t]:
+                    try:
+                        out.append(store.get_chunk('%s/arr' % b, (slice(3 * k, 3 * k + 3), slice(0, 4)), np.int32).tolist())
+                    except (ChunkNotFound, StoreUnavailable) as e:
+                        out.append('StoreUnavailable' if isinstance(e, StoreUnavailable) else 'ChunkNotFound')
+                return out
+            return f
+
+        def expected(b, k):
+            if b == 'bkt' and k in chunks:
+                return chunks[k].tolist()
+            return 'ChunkNotFound' if S3X_STATUS[b] == 2 else 'StoreUnavailable'
+
+        def check(results):
+            Retry.sleep = real_sleep
+            for t in range(3):
+                want = [expected(b, k) for b, k in plan[t]]
+                if results[t][1] != want:
+                    got = [r if isinstance(r, str) else 'chunk' for r in results[t][1]]
+                    return 'wrong_value; thread %d got %r' % (t, got)
+            if clashes:
+                return 'session_used_by_two_requests; %r' % (clashes[0],)
+            good = {srv.url + '/bkt'}
+            if not set(store._verified_buckets) <= good:
+                return 'bad_bucket_remembered; %r' % sorted(store._verified_buckets)
+            lost = sum(1 for k, _ in events if k == 4)
+            if len(pool._pool) + lost != len(made) or len({id(x) for x in pool._pool}) != len(pool._pool):
+                return 'sessions_not_accounted_for; pool=%d lost=%d made=%d' % (len(pool._pool), lost, len(made))
+            if ctx.model_ok and not ctx.searching:
+                free, held, mlost, clash, unheld, raised, mmade = ctx.model([[208, [[k, t] for k, t in events]]])[0]
+                if clash or unheld or raised or held or mlost != lost or mmade != len(made) or len(free) != len(pool._pool):
+                    return 'model_pool_differs; model free=%d lost=%d made=%d clash=%d unheld=%d' % (
+                        len(free), mlost, mmade, clash, unheld)
+                # every request of every thread is a request program of the model
+                for t in range(3):
+                    mine = [k for k, th in events if th == t]
+                    reqs, cur = [], []
+                    for k in mine:
+                        cur.append(k)
+                        if k in (3, 4):
+                            reqs.append(cur)
+                            cur = []
+                    if cur:
+                        return 'model_request_differs; thread %d has an unfinished request %r' % (t, cur)
+                    for r in reqs:
+                        outs = []
+                        for i, k in enumerate(r):
+                            if k == 1:
+                                nxt = r[i + 1] if i + 1 < len(r) else None
+                                outs.append(0 if nxt == 2 else 1 if nxt == 3 else 2)
+                        prog = [e[0] for e in ctx.model([[209, [t, outs]]])[0]]
+                        if prog != r:
+                            return 'model_request_differs; thread %d events %r model %r' % (t, r, prog)
+                # the verified-bucket machine: same outcomes for the checks that were made (one per missing object)
+                ids = {'gone': 0, 'void': 1, 'bkt': 2}
+                checked = [b for t in range(3) for (b, k) in plan[t] if not (b == 'bkt' and k in chunks)]
+                bs = [ids[b] for b in checked]
+                serial = [i for i in range(len(bs)) for _ in range(8)]
+                states, remembered, spec, code_ok = ctx.model([[207, [[0, 1, 2], bs, serial]]])[0]
+                mout = ['ChunkNotFound' if st[0] == 2 and st[1] == 1 else 'StoreUnavailable' if st[0] == 2 else 'unfinished'
+                        for st in states]
+                rout = ['ChunkNotFound' if S3X_STATUS[b] == 2 else 'StoreUnavailable' for b in checked]
+                if mout != rout or (2 in remembered) != bool(store._verified_buckets) or not code_ok:
+                    return 'model_verify_differs; model %r real %r' % (mout, rout)
+            return None
+        return [getter(0), getter(1), getter(2)], check
+    return make
+
+
+def ext_site_table(ctx):
+    t = {}
+    for i in range(ctx.scale(3, 12)):
+        t['sensor_dag%d' % i] = (site_sensor_dag(ctx, ctx.seed * 31 + i), ['katdal/sensordata.py'])
+    for k in ('diff', 'same', 'missing', 'virtual', 'select'):
+        t['concat_' + k] = (site_concat(k), ['katdal/sensordata.py', 'katdal/concatdata.py'])
+    for k in S3X_PLANS:
+        t['s3x_' + k] = (site_s3x(ctx, k), ['katdal/chunkstore_s3.py'])
+    t['v4_props'] = (site_v4_props(ctx.seed), V4P_FILES)
+    return t
 
 # ------------------------------------------------------------------------------------------------ driver
 
@@ -1067,6 +1859,7 @@ def site_table(ctx):
          'load_lines': (site_load_lines(ctx.seed), LOAD_FILES)}
     for k in ('same', 'alias', 'virtual', 'virtual2', 'props', 'select', 'mixed'):
         t['sensor_' + k] = (site_sensor(k), ['katdal/sensordata.py'])
+    t.update(ext_site_table(ctx))
     return t
 
 
@@ -1084,6 +1877,10 @@ def run(ctx):
             replay_case(ctx, w)
     model_cross_check(ctx)
     pool_histories(ctx)
+    memo_cross_check(ctx)
+    props_cross_check(ctx)
+    verify_cross_check(ctx)
+    request_cross_check(ctx)
     _timed(ctx, 'models', t0)
     table = site_table(ctx)
     for site, (make, files) in table.items():
@@ -1092,6 +1889,21 @@ def run(ctx):
             continue
         if site == 's3':
             run_site(ctx, site, make, files, n=ctx.scale(12, 100), length=400, cap=ctx.scale(24, 400))
+        elif site.startswith('s3x_'):
+            run_site(ctx, site, make, files, n=ctx.scale(4, 60), length=500, cap=ctx.scale(10, 300))
+        elif site == 'v4_props':
+            try:
+                v4p_env(ctx.seed)
+                run_site(ctx, site, make, files, n=ctx.scale(6, 80), length=1500, cap=ctx.scale(24, 500))
+            except Hang as e:
+                ctx.disagree('what=single_thread_load;symptom=sensor_properties_hang', dict(site='v4_props', schedule=[]), str(e),
+                             None, 'reading the sensor-backed properties of a v4 data set from ONE thread does not return')
+            finally:
+                v4p_cleanup()
+        elif site.startswith('sensor_dag'):
+            run_site(ctx, site, make, files, n=ctx.scale(12, 200), length=300, cap=ctx.scale(30, 600))
+        elif site.startswith('concat_'):
+            run_site(ctx, site, make, files, n=ctx.scale(10, 200), length=600, cap=ctx.scale(40, 800))
         else:
             run_site(ctx, site, make, files)
         _timed(ctx, site, t1)
@@ -1106,6 +1918,8 @@ def run(ctx):
     _timed(ctx, 'loads', t1)
     if 's' in _s3:
         _s3.pop('s').close()
+    if 's' in _s3x:
+        _s3x.pop('s').close()
 
 
 def replay_load(ctx, case, kind):
@@ -1122,7 +1936,7 @@ def replay_load(ctx, case, kind):
         try:
             try:
                 with dask.config.set(scheduler='synchronous'):
-                    ref = guarded(lambda: do_load(x.d, INDICES[case['index']], case['joint']))
+                    ref = guarded(lambda: do_load(x.d, index_of(case['index'], x.d), case['joint']))
             except Hang as e:
                 ctx.disagree('what=single_thread_load;symptom=hangs', case, str(e), None,
                              'the single-threaded load of a v4 data set does not return')
@@ -1149,6 +1963,16 @@ def replay_case(ctx, case):
             ctx.disagree('what=model_locked_unsafe;site=%s' % case.get('site'), case, None, out, 'replayed model schedule is unsafe')
         ctx.note_case(('model', 'replay'))
         return
+    if kind == 'model_memo':
+        o = ctx.model([[205, [case['graph'], case['virt'], case['wants'], case['schedule'], case['locked']]]])[0]
+        if o != [-999]:
+            memo_eval(ctx, case['graph'], case['virt'], case['wants'], case['schedule'], case['locked'], o)
+        ctx.note_case(('model_memo', 'replay'))
+        return
+    if kind in ('model_props', 'model_verify', 'model_request'):
+        # (model-only cases: the cross-check of the same seed reproduces them)
+        {'model_props': props_cross_check, 'model_verify': verify_cross_check, 'model_request': request_cross_check}[kind](ctx)
+        return
     if kind in ('store_writes', 'load'):
         try:
             replay_load(ctx, case, kind)
@@ -1168,12 +1992,23 @@ def replay_case(ctx, case):
                 return
             with dask.config.set(scheduler='synchronous'):
                 run_one(ctx, site, make, files, case.get('schedule', []), replaying=True)
+        elif site == 'v4_props':
+            try:
+                v4p_env(ctx.seed)
+            except Hang as e:
+                ctx.disagree('what=single_thread_load;symptom=sensor_properties_hang', case, str(e), None,
+                             'reading the sensor-backed properties of a v4 data set from ONE thread does not return')
+                return
+            run_one(ctx, site, make, files, case.get('schedule', []), replaying=True)
         else:
             run_one(ctx, site, make, files, case.get('schedule', []), replaying=True)
     finally:
         load_lines_cleanup()
+        v4p_cleanup()
         if 's' in _s3:
             _s3.pop('s').close()
+        if 's' in _s3x:
+            _s3x.pop('s').close()
 
 
 def replay(ctx, doc):
